@@ -132,20 +132,43 @@ theorem encode_lt_iff (a b : SV) : vlt (encode a) (encode b) = true ↔ Prec a b
 
 /-! ### build metadata -/
 
-theorem scanGo_plus (s t : List Char) : ∀ r, scanGo r (s ++ '+' :: t) = scanGo r s := by
+theorem takeWhile_plus (u t : List Char) :
+    (u ++ '+' :: t).takeWhile (fun c => c != '+') = u.takeWhile (fun c => c != '+') := by
+  induction u with
+  | nil => simp
+  | cons c cs ih =>
+    by_cases h : c = '+'
+    · subst h; simp
+    · have hb : (c != '+') = true := by simpa using h
+      simp [List.takeWhile, hb, ih]
+
+theorem preIdents_plus (u t : List Char) : preIdents (u ++ '+' :: t) = preIdents u := by
+  simp [preIdents, takeWhile_plus]
+
+theorem scanCore_plus (s t : List Char) : ∀ r,
+    (scanCore r (s ++ '+' :: t)).1 = (scanCore r s).1 ∧
+    preIdents (scanCore r (s ++ '+' :: t)).2 = preIdents (scanCore r s).2 := by
   induction s with
   | nil =>
     intro r
-    have h1 : isIdentChar '+' = false := by decide
     have h2 : MesonModel.Py.isDigit '+' = false := by decide
     have h3 : isIdentStart '+' = false := by decide
-    cases r <;> simp [scanGo, flush, h1, h2, h3]
+    cases r <;> simp [scanCore, flush, h2, h3]
   | cons c cs ih =>
     intro r
-    cases r <;> simp only [List.cons_append, scanGo, ih]
+    simp only [List.cons_append, scanCore]
+    split
+    · cases r <;> exact ih _
+    · split
+      · exact ⟨rfl, by simpa using preIdents_plus (c :: cs) t⟩
+      · split
+        · exact ⟨rfl, rfl⟩
+        · have := ih .none
+          exact ⟨by simp [this.1], this.2⟩
 
 theorem parse_plus (s t : List Char) : SemVer.parse (s ++ '+' :: t) = SemVer.parse s := by
-  simp [SemVer.parse, scan, scanGo_plus]
+  have := scanCore_plus s t .none
+  simp [SemVer.parse, this.1, this.2]
 
 /-! ### structure of `cargo_parse` -/
 
